@@ -56,15 +56,51 @@ pub fn generate(repo: &PathBuf) -> Result<String, String> {
         return Err("enum RecordKind not found".into());
     }
 
-    // Serialize: match *self { Self::X => serializer.serialize_uN(k), .. }
+    // ---- Serialize: the integer written for each kind.  Recognised shapes (anything else is a refusal):
+    //   match *self|self { Self::X => <ser>.serialize_uN(k), .. }
+    //   <ser>.serialize_uN(self.H())   with a private inherent `fn H(self|&self)` = match self|*self { Self::X => k, .. }
     let f = impl_fn(&file, "RecordKind", Some("Serialize"), "serialize")?;
-    let mut ms = Matches::default();
-    ms.visit_block(&f.block);
-    if ms.found.len() != 1 || toks(&ms.found[0].expr) != "*self" {
-        return Err("Serialize for RecordKind: expected exactly one `match *self`".into());
+    let ser_methods = ["serialize_u8", "serialize_u16", "serialize_u32", "serialize_u64"];
+    let (ser_match, arm_is_call) = {
+        let mut ms = Matches::default();
+        ms.visit_block(&f.block);
+        if ms.found.len() == 1 {
+            (ms.found[0].clone(), true)
+        } else if ms.found.is_empty() {
+            // a single call `<ser>.serialize_uN(<helper call on self>)`
+            let tail = match f.block.stmts.as_slice() {
+                [syn::Stmt::Expr(e, None)] => e,
+                _ => return Err("Serialize for RecordKind: expected a `match` or a single `serialize_uN(self.helper())` call".into()),
+            };
+            let helper = match tail {
+                syn::Expr::MethodCall(m) if ser_methods.contains(&m.method.to_string().as_str()) && m.args.len() == 1 => match &m.args[0] {
+                    syn::Expr::MethodCall(h) if h.args.is_empty() && ["self", "(*self)"].contains(&toks(&h.receiver).as_str()) => h.method.to_string(),
+                    syn::Expr::Call(c) if c.args.len() == 1 && ["self", "*self"].contains(&toks(&c.args[0]).as_str()) => {
+                        toks(&c.func).rsplit("::").next().unwrap_or("").to_string()
+                    }
+                    other => return Err(format!("Serialize for RecordKind: unexpected tag expression {}", toks(other))),
+                },
+                other => return Err(format!("Serialize for RecordKind: unexpected body {}", toks(other))),
+            };
+            let hf = impl_fn(&file, "RecordKind", None, &helper)?;
+            if !matches!(hf.vis, syn::Visibility::Inherited) {
+                return Err(format!("Serialize for RecordKind: helper {helper} is not private"));
+            }
+            let mut hm = Matches::default();
+            hm.visit_block(&hf.block);
+            if hm.found.len() != 1 {
+                return Err(format!("RecordKind::{helper}: expected exactly one `match`"));
+            }
+            (hm.found[0].clone(), false)
+        } else {
+            return Err("Serialize for RecordKind: more than one `match`".into());
+        }
+    };
+    if !["*self", "self"].contains(&toks(&ser_match.expr).as_str()) {
+        return Err(format!("Serialize for RecordKind: the tag table matches on `{}`, not on self", toks(&ser_match.expr)));
     }
     let mut ser: Vec<(String, u128)> = vec![];
-    for arm in &ms.found[0].arms {
+    for arm in &ser_match.arms {
         let v = match &arm.pat {
             syn::Pat::Path(p) => last_ident(&p.path),
             other => return Err(format!("Serialize for RecordKind: unexpected pattern {}", toks(other))),
@@ -72,17 +108,13 @@ pub fn generate(repo: &PathBuf) -> Result<String, String> {
         if arm.guard.is_some() {
             return Err("Serialize for RecordKind: guarded arm".into());
         }
-        match &*arm.body {
-            syn::Expr::MethodCall(m)
-                if toks(&m.receiver) == "serializer"
-                    && ["serialize_u8", "serialize_u16", "serialize_u32", "serialize_u64"].contains(&m.method.to_string().as_str())
-                    && m.args.len() == 1 =>
-            {
-                let k = int_lit(&m.args[0]).ok_or_else(|| format!("Serialize for RecordKind::{v}: tag is not an integer literal"))?;
-                ser.push((v, k));
-            }
-            other => return Err(format!("Serialize for RecordKind: unexpected arm body {}", toks(other))),
+        let k = match &*arm.body {
+            syn::Expr::MethodCall(m) if arm_is_call && ser_methods.contains(&m.method.to_string().as_str()) && m.args.len() == 1 => int_lit(&m.args[0]),
+            e if !arm_is_call => int_lit(e),
+            _ => None,
         }
+        .ok_or_else(|| format!("Serialize for RecordKind::{v}: unexpected arm body {}", toks(&arm.body)))?;
+        ser.push((v, k));
     }
     for v in &variants {
         if ser.iter().filter(|(n, _)| n == v).count() != 1 {
@@ -90,22 +122,57 @@ pub fn generate(repo: &PathBuf) -> Result<String, String> {
         }
     }
 
-    // Deserialize: let num = uN::deserialize(deserializer)?; match num { k => Ok(Self::X), .., _ => Err(..) }
+    // ---- Deserialize: `let N = uT::deserialize(<de>)?;` then
+    //   match N { k => Ok(Self::X), .., _ => Err(..) }
+    //   Self::H(N).ok_or_else(..) | .ok_or(..)   with a private `fn H(t) -> Option<Self>` = match t { k => Some(Self::X), .., _ => None }
     let f = impl_fn(&file, "RecordKind", Some("Deserialize"), "deserialize")?;
-    let body = toks(&f.block);
-    let int_ty = ["u8", "u16", "u32", "u64"]
-        .iter()
-        .find(|t| body.starts_with(&format!("{{letnum={t}::deserialize(deserializer)?;")))
-        .ok_or("Deserialize for RecordKind: expected `let num = uN::deserialize(deserializer)?`")?;
+    let (num, int_ty) = match f.block.stmts.first() {
+        Some(syn::Stmt::Local(l)) => {
+            let name = toks(&l.pat);
+            let init = l.init.as_ref().map(|i| toks(&i.expr)).unwrap_or_default();
+            let ty = ["u8", "u16", "u32", "u64"]
+                .iter()
+                .find(|t| init.starts_with(&format!("{t}::deserialize(")) && init.ends_with(")?"))
+                .ok_or_else(|| format!("Deserialize for RecordKind: expected `let n = uN::deserialize(..)?`, found `{init}`"))?;
+            (name, *ty)
+        }
+        _ => return Err("Deserialize for RecordKind: expected `let n = uN::deserialize(..)?` first".into()),
+    };
     let bits: u32 = int_ty[1..].parse().unwrap();
-    let mut ms = Matches::default();
-    ms.visit_block(&f.block);
-    if ms.found.len() != 1 || toks(&ms.found[0].expr) != "num" {
-        return Err("Deserialize for RecordKind: expected exactly one `match num`".into());
-    }
+    let (de_match, some_arms) = {
+        let mut ms = Matches::default();
+        ms.visit_block(&f.block);
+        if ms.found.len() == 1 && toks(&ms.found[0].expr) == num {
+            (ms.found[0].clone(), false)
+        } else if ms.found.is_empty() {
+            let tail = match f.block.stmts.last() {
+                Some(syn::Stmt::Expr(e, None)) => toks(e),
+                _ => return Err("Deserialize for RecordKind: no tail expression".into()),
+            };
+            // Self::H(N).ok_or_else(|| ..)  /  Self::H(N).ok_or(..)
+            let rest = tail.strip_prefix("Self::").or_else(|| tail.strip_prefix("RecordKind::")).ok_or_else(|| format!("Deserialize for RecordKind: unexpected tail {tail}"))?;
+            let (helper, after) = rest.split_once('(').ok_or("Deserialize for RecordKind: unexpected tail")?;
+            if !(after.starts_with(&format!("{num}).ok_or_else(")) || after.starts_with(&format!("{num}).ok_or("))) {
+                return Err(format!("Deserialize for RecordKind: unexpected tail {tail}"));
+            }
+            let hf = impl_fn(&file, "RecordKind", None, helper)?;
+            if !matches!(hf.vis, syn::Visibility::Inherited) {
+                return Err(format!("Deserialize for RecordKind: helper {helper} is not private"));
+            }
+            let param = hf.sig.inputs.iter().filter_map(|a| if let syn::FnArg::Typed(t) = a { Some(toks(&t.pat)) } else { None }).next().unwrap_or_default();
+            let mut hm = Matches::default();
+            hm.visit_block(&hf.block);
+            if hm.found.len() != 1 || toks(&hm.found[0].expr) != param {
+                return Err(format!("RecordKind::{helper}: expected exactly one `match` on its argument"));
+            }
+            (hm.found[0].clone(), true)
+        } else {
+            return Err("Deserialize for RecordKind: expected exactly one `match` on the integer read".into());
+        }
+    };
     let mut de: Vec<(u128, String)> = vec![];
     let mut wild = false;
-    for arm in &ms.found[0].arms {
+    for arm in &de_match.arms {
         if arm.guard.is_some() {
             return Err("Deserialize for RecordKind: guarded arm".into());
         }
@@ -114,7 +181,7 @@ pub fn generate(repo: &PathBuf) -> Result<String, String> {
                 let k = int_lit(&syn::Expr::Lit(l.clone())).ok_or("Deserialize for RecordKind: non-integer pattern")?;
                 let b = toks(&arm.body);
                 let v = b
-                    .strip_prefix("Ok(Self::")
+                    .strip_prefix(if some_arms { "Some(Self::" } else { "Ok(Self::" })
                     .and_then(|r| r.strip_suffix(')'))
                     .ok_or_else(|| format!("Deserialize for RecordKind: unexpected arm body {b}"))?;
                 if !variants.iter().any(|x| x == v) {
@@ -128,7 +195,8 @@ pub fn generate(repo: &PathBuf) -> Result<String, String> {
                 }
             }
             syn::Pat::Wild(_) => {
-                if !toks(&arm.body).starts_with("Err(") {
+                let b = toks(&arm.body);
+                if !(if some_arms { b == "None" } else { b.starts_with("Err(") }) {
                     return Err("Deserialize for RecordKind: wildcard arm is not an error".into());
                 }
                 wild = true;
@@ -213,15 +281,90 @@ pub fn generate(repo: &PathBuf) -> Result<String, String> {
     // chunks.rs
     let rel2 = "ant-protocol/src/storage/chunks.rs";
     let cf = parse_file(&repo.join(rel2))?;
-    let b = toks(&impl_fn(&cf, "Chunk", Some("Serialize"), "serialize")?.block);
-    let ser_value_only = b == "{self.value.serialize(serialiser)}";
-    let b = toks(&impl_fn(&cf, "Chunk", Some("Deserialize"), "deserialize")?.block);
-    let de_recomputes = b == "{letvalue=Deserialize::deserialize(deserializer)?;Ok(Self::new(value))}";
-    let b = toks(&impl_fn(&cf, "Chunk", None, "new")?.block);
-    let new_hashes = b == "{Self{address:ChunkAddress::new(XorName::from_content(value.as_ref())),value,}}";
-    if !ser_value_only {
-        return Err("Serialize for Chunk: expected `self.value.serialize(serialiser)`".into());
+    // typed parameter names of a fn, in order
+    fn params(sig: &syn::Signature) -> Vec<String> {
+        sig.inputs.iter().filter_map(|a| if let syn::FnArg::Typed(t) = a { Some(toks(&t.pat)) } else { None }).collect()
     }
+    /// the `address:` initialiser of the (single) `Self { .. }` / `Chunk { .. }` literal in a block
+    fn address_init(block: &syn::Block) -> Option<String> {
+        struct V(Vec<String>);
+        impl<'ast> Visit<'ast> for V {
+            fn visit_expr_struct(&mut self, e: &'ast syn::ExprStruct) {
+                let n = last_ident(&e.path);
+                if n == "Self" || n == "Chunk" {
+                    for f in &e.fields {
+                        if toks(&f.member) == "address" {
+                            self.0.push(toks(&f.expr));
+                        }
+                    }
+                }
+                syn::visit::visit_expr_struct(self, e);
+            }
+        }
+        let mut v = V(vec![]);
+        v.visit_block(block);
+        if v.0.len() == 1 { v.0.pop() } else { None }
+    }
+    /// Some(true): the address is the content hash of `value_name`; Some(false): recognisably something else; None: unknown
+    fn address_is_content_hash(file: &syn::File, block: &syn::Block, init: &str, value_name: &str, fn_params: &[String]) -> Option<bool> {
+        let mentions_value = init.contains(&format!("({value_name}")) || init.contains(&format!("(&{value_name}"));
+        if init.contains("XorName::from_content(") && mentions_value {
+            return Some(true);
+        }
+        // through a private same-file helper applied to the value
+        let blocks = with_private_helpers(file, block, &["new"]);
+        if blocks.len() > 1 && mentions_value && calls_in_blocks(&blocks[1..]).paths.iter().any(|p| p.ends_with("XorName::from_content")) {
+            return Some(true);
+        }
+        // known weaker alternatives: a default / zero name, or an address handed in by the caller
+        if init.contains("default()") || init.contains("XorName([0") || fn_params.iter().any(|p| p != value_name && (init == *p || init.contains(&format!("({p})")))) {
+            return Some(false);
+        }
+        None
+    }
+
+    let sf = impl_fn(&cf, "Chunk", Some("Serialize"), "serialize")?;
+    let sp = params(&sf.sig);
+    let b = toks(&sf.block);
+    if sp.len() != 1 || b != format!("{{self.value.serialize({})}}", sp[0]) {
+        return Err(format!("Serialize for Chunk: expected `self.value.serialize(<serializer>)`, found {b}"));
+    }
+    // Chunk::new
+    let nf = impl_fn(&cf, "Chunk", None, "new")?;
+    let np = params(&nf.sig);
+    if np.len() != 1 {
+        return Err("Chunk::new: expected one parameter (the value)".into());
+    }
+    let init = address_init(&nf.block).ok_or("Chunk::new: expected one struct literal with an `address:` field")?;
+    let new_hashes = address_is_content_hash(&cf, &nf.block, &init, &np[0], &np)
+        .ok_or_else(|| format!("Chunk::new: cannot tell whether `address: {init}` is the content hash of the value"))?;
+    // Deserialize for Chunk
+    let df = impl_fn(&cf, "Chunk", Some("Deserialize"), "deserialize")?;
+    let dp = params(&df.sig);
+    let b = toks(&df.block);
+    let de_recomputes = if dp.len() != 1 {
+        return Err("Deserialize for Chunk: expected one parameter".into());
+    } else if b == format!("{{Deserialize::deserialize({}).map(Self::new)}}", dp[0]) || b == format!("{{Deserialize::deserialize({}).map(Chunk::new)}}", dp[0]) {
+        true
+    } else {
+        // `let V = <..>::deserialize(d)?;` then `Ok(Self::new(V))`, or a struct literal whose address we can classify
+        let v = match df.block.stmts.first() {
+            Some(syn::Stmt::Local(l)) if l.init.as_ref().map(|i| { let t = toks(&i.expr); t.contains("deserialize(") && t.ends_with(&format!("({})?", dp[0])) }).unwrap_or(false) => toks(&l.pat),
+            _ => return Err(format!("Deserialize for Chunk: unexpected body {b}")),
+        };
+        let tail = match df.block.stmts.last() {
+            Some(syn::Stmt::Expr(e, None)) => toks(e),
+            _ => return Err(format!("Deserialize for Chunk: unexpected body {b}")),
+        };
+        if df.block.stmts.len() == 2 && (tail == format!("Ok(Self::new({v}))") || tail == format!("Ok(Chunk::new({v}))")) {
+            true
+        } else if let Some(init) = address_init(&df.block) {
+            address_is_content_hash(&cf, &df.block, &init, &v, &dp)
+                .ok_or_else(|| format!("Deserialize for Chunk: cannot tell whether `address: {init}` is the content hash of the value"))?
+        } else {
+            return Err(format!("Deserialize for Chunk: unexpected body {b}"));
+        }
+    };
 
     let mut s = header(&format!("{rel} and {rel2}"));
     s.push_str("namespace SafeNet.Gen.Wire\n");
